@@ -55,7 +55,7 @@ func Content(o ChainOpts) simnode.Content {
 		for i := 0; i < ntx; i++ {
 			tag := b.Version*1000 + uint64(i)*10
 			tx := simnode.Tx{
-				Type:        byte(r.Intn(3)),
+				Type:        byte(r.Intn(5)), // legacy, access list, dynamic fee, blob, set-code
 				Nonce:       r.U64() >> uint(8+r.Intn(56)),
 				Gas:         21000 + uint64(r.Intn(1_000_000)),
 				GasPrice:    bigOf(r, o.Distinct, tag+1),
@@ -70,7 +70,7 @@ func Content(o ChainOpts) simnode.Content {
 				EffGasPrice: bigOf(r, o.Distinct, tag+5),
 			}
 			if o.Distinct {
-				tx.Type = 2
+				tx.Type = byte(2 + i%3) // the fee-market types (2, 3, 4) all carry max fee fields
 				tx.Status = 1
 				tx.Nonce = tag + 7
 				tx.Input = append([]byte{0xa9}, r.Bytes(8+r.Intn(30))...)
